@@ -121,6 +121,12 @@ def plain_sessions(tier):
                                 argv=["0x" + hx] + ["0x" + s for s in st],
                                 ref=dict(sv=0, flags=F_STANDARD, scripts=[hx], p2sh=False, commit_steps=0, control="", stack=list(st), valid=None),
                                 hist=(n <= b["hist_maxlen"])))
+    # a long script (301 operations: 150 x OP_1 OP_DROP, then OP_1 - legal, only 150 of them are counted): positions beyond 256, rewinds from
+    # there (a one-byte position or history counter wraps exactly there), forward again, and a long way back
+    hx = "5175" * 150 + "51"
+    out.append(dict(kind="plain", cls="plain", label="[OP_1 OP_DROP x150 OP_1] stack=-", argv=["0x" + hx],
+                    ref=dict(sv=0, flags=F_STANDARD, scripts=[hx], p2sh=False, commit_steps=0, control="", stack=[], valid=None),
+                    hist=False, deep_history="s" * 300 + "r" * 4 + "s" * 3 + "r" * 46 + "s" * 2 + "r" * 2))
     return out
 
 
@@ -871,6 +877,10 @@ def run_session(sess, bdir, cwd, ref, L, history=None, with_prefixes=True):
         did_hist = True
     elif sess.get("hist") and full is not False and S.plan.rewindable and S.alignable and S.st["traversed"]:
         S.histories(L)
+        did_hist = True
+    if sess.get("deep_history") and full is not False:
+        # one long walk far beyond the exhaustive histories: deep into the script, some rewinds, forward again, a long way back
+        S.histories(len(sess["deep_history"]), only=sess["deep_history"])
         did_hist = True
     return dict(cls=S.cls, kind=sess["kind"], label=sess["label"], viol=S.viol, st=S.st, sample=S.sample, hist=did_hist,
                 T=S.plan.T, stack_oracle=S.plan.stack_oracle, rewindable=S.plan.rewindable)
